@@ -43,9 +43,9 @@ def inputs_for(bpt, tier):
     big = 8 * e + 2
     out = []
     combos = (
-        [(s2, t) for s2 in ("HAP1_SCAFFOLD_2", "hap2_scaffold_2", "scaffold_2") for t in (None, "scaffold_9", "hap2_scaffold_9")]
+        [(s2, t) for s2 in ("HAP1_SCAFFOLD_2", "hap2_scaffold_2_1", "scaffold_2") for t in (None, "scaffold_9", "hap2_scaffold_9_1")]
         if tier == "thorough"
-        else [("HAP1_SCAFFOLD_2", "hap2_scaffold_9"), ("scaffold_2", None), ("hap2_scaffold_2", "scaffold_9")]
+        else [("HAP1_SCAFFOLD_2", "hap2_scaffold_9"), ("scaffold_2", None), ("hap2_scaffold_2_1", "scaffold_9")]
     )
     for second, tiny in combos:
         if True:
@@ -176,6 +176,12 @@ class C09(Check):
         inbm = {name: pv.input_basemap(rows) for name, rows in inp}
         nonprimary = False
         mapped = set()
+        hap_keys = {}  # lower-case haplotype name -> the assembly keys its sequence was found under
+
+        def note_key(key):
+            if key not in (None, "Haplotig", "Contaminant", "FalseDuplicate", "Primary"):
+                hap_keys.setdefault(key.lower(), set()).add(key)
+
         for gi, (_, pieces) in enumerate(pvspec[1]):
             for pi, (src, s, e, _o, _t) in enumerate(pieces):
                 mapped.add(src)
@@ -190,6 +196,7 @@ class C09(Check):
                         ctx.violation("core-base-not-exactly-once", case, f"{ent[1]}:{ent[2]} found {len(locs)} times")
                         return
                     got = self.classify_key(locs[0][0], prim)
+                    note_key(locs[0][0])
                     if got != ("primary",):
                         nonprimary = True
                     if got not in allowed:
@@ -216,11 +223,17 @@ class C09(Check):
                     ctx.violation("absent-base-not-exactly-once", case, f"{r[1]}:{r[2]} found {len(locs)} times")
                     return
                 got = self.classify_key(locs[0][0], prim)
+                note_key(locs[0][0])
                 if got != ("primary",):
                     nonprimary = True
                 if got not in allowed:
                     ctx.violation("absent-scaffold-misrouted", case, f"{name} absent from the map: in assembly {locs[0][0]!r}, expected {sorted(map(str, allowed))}")
                     return
+        for lc, keys in hap_keys.items():
+            if len(keys) > 1:
+                # "that haplotype's assembly": a tag and a name prefix that differ only in case are one haplotype
+                ctx.violation("haplotype-split-by-case", case, f"sequence of haplotype {lc!r} is spread over assemblies {sorted(keys)!r}")
+                return
         if nonprimary:
             ctx.nontrivial += 1
         ctx.count("completed")
@@ -260,14 +273,19 @@ class C09(Check):
                             for ptags in itertools.product(DESTRUCTIVE, repeat=np_):
                                 if not full and np_ == 3 and all(ptags):
                                     continue  # quick: at most two destructively tagged pieces
-                                scaffolds = []
-                                for gi, grp in enumerate(arr2):
-                                    rows = []
-                                    for pi, o in grp:
-                                        src, s, en = pieces[pi]
-                                        rows.append((src, s, en, o, tuple(decs[gi]) + tuple(ptags[pi])))
-                                    scaffolds.append((f"Scaffold_{gi + 1}", tuple(rows)))
-                                self.run_case(inp, (bpt, tuple(scaffolds)), ctx)
+                                # scaffold-level tags on every piece, and (when a scaffold has several pieces and
+                                # no per-piece tag is involved) on its first piece only: the code takes their union
+                                modes = ("all", "first") if (ng < np_ and not any(ptags)) else ("all",)
+                                for mode in modes:
+                                    scaffolds = []
+                                    for gi, grp in enumerate(arr2):
+                                        rows = []
+                                        for k, (pi, o) in enumerate(grp):
+                                            src, s, en = pieces[pi]
+                                            dec = tuple(decs[gi]) if (mode == "all" or k == 0) else tuple(t for t in decs[gi] if t == "Painted")
+                                            rows.append((src, s, en, o, dec + tuple(ptags[pi])))
+                                        scaffolds.append((f"Scaffold_{gi + 1}", tuple(rows)))
+                                    self.run_case(inp, (bpt, tuple(scaffolds)), ctx)
         ctx.sample(
             {
                 "input": pv.jsonable(inputs_for(bpt, tier)[0]),
